@@ -166,6 +166,8 @@ def auto_discharge(f, b, s):
                 only_pos = [x for x in subterms(c.args[1]) if isinstance(x, tuple) and x and x[0] == "call" and x is not poss[0] and x != poss[0]]
                 if not only_pos:
                     return "string sliced at the memchr position of an ASCII needle found in the same string"
+        if c.matches(["slice::windows", "slice::chunks", "slice::chunks_exact"]) and len(c.args) == 2 and (const_int(c.args[1]) or 0) > 0:
+            return "windows/chunks with a non-zero constant size does not panic"
         if c.matches(["Index::index", "IndexMut::index_mut"]) and len(c.args) == 2:
             coll, idx = peel(c.args[0]), peel(c.args[1])
 
@@ -206,6 +208,13 @@ def auto_discharge(f, b, s):
                 i, n = cnd[2], cnd[3]
                 if const_int(n) is not None and const_int(i) is not None and const_int(i) < const_int(n):
                     return "constant index below the constant array length"
+                if const_int(i) is not None and isinstance(n, tuple) and len(n) == 3 and n[0] == "unop" and n[1] == "PtrMetadata":
+                    # element of `slice.windows(k)` / `chunks_exact(k)`: its length is k
+                    w = peel(n[2])
+                    if isinstance(w, tuple) and len(w) == 3 and w[0] == "field" and isinstance(w[1], tuple) and w[1][0] == "downcast" and w[1][2] == "Some" and is_call(peel(w[1][1], transparent=[]), "Iterator::next"):
+                        src = peel(peel(w[1][1], transparent=[])[2][0], transparent=["IntoIterator::into_iter"])
+                        if is_call(src, ["slice::windows", "slice::chunks_exact"]) and const_int(src[2][1]) is not None and const_int(i) < const_int(src[2][1]):
+                            return "constant index below the constant window size"
                 if const_int(n) == 2:
                     ii = i
                     if ii[0] == "cast":
